@@ -42,3 +42,13 @@ claim('C02',
       'against the compiled extension each run); ellipse end-to-end masks outside (solver unknown).',
       'symbolic execution of the real Python + AST interpretation of the .pyx kernels + SMT (z3 NRA, int relaxation)',
       'DESIGN.md section 5 C02')
+claim('C15',
+      'Bounded symbolic check of rotate() of every pixel class (arbitrary pivot, arbitrary angle as a unit-circle atom): '
+      'class/meta preserved and not aliased, area equal, rotating back restores every parameter, original untouched, '
+      'rotated parameters equal the rigid image, membership of R p in the rotated region vs the independent oracle at p '
+      '(directly for circle/rectangle/annuli/compound, via proved parameter image + frame-invariance lemma for ellipses '
+      'and polygons); integer translation shifts the bounding box by (K, L) (unbounded symbolic integers) and leaves '
+      'every mask cell term unchanged.',
+      'Real-number model; kernels from the .pyx source; masks bounded to boxes <= 3x3, centre mode (quick).',
+      'symbolic execution of the real Python + SMT (z3 NRA / LIRA with integer windows)',
+      'DESIGN.md section 5 C15')
